@@ -1,0 +1,51 @@
+//go:build verif
+// +build verif
+
+package txDataBuilder
+
+import "github.com/ElrondNetwork/elrond-vm-common/parsers"
+
+// Contracts for govc, the contract-based deductive verifier kept in /verif (see /verif/DESIGN.md).
+// Compiled only under the "verif" build tag. wire(f, l, n) is the tx-data format f@hex(l[0])@...@hex(l[n-1])
+// (prelude); lunhex(l) decodes every element of a list of hex strings. A builder is well formed when its
+// separator is "@" and every element is the lower-case hex encoding of some byte string (what the element
+// methods append).
+
+//@ def encOK(b) := seq(b.separator) == "@" && forall(j, int, 0 <= j && j < len(b.elements) ==> hex(unhex(seq(b.elements[j]))) == seq(b.elements[j]))
+
+//@ func NewBuilder
+//@   ensures[C12] r != nil && fresh(r) && encOK(r) && len(r.elements) == 0 && len(r.function) == 0 && r.elements != nil && fresh(r.elements)
+
+//@ func (builder *txDataBuilder) Func
+//@   requires builder != nil
+//@   ensures[C12] r == builder && seq(builder.function) == seq(function)
+//@   modifies builder.function
+
+//@ func (builder *txDataBuilder) Bytes
+//@   requires builder != nil && encOK(builder)
+//@   ensures[C12] r == builder && encOK(builder) && len(builder.elements) == old(len(builder.elements)) + 1 && seq(builder.elements[old(len(builder.elements))]) == hex(seq(bytes))
+//@   ensures[C12] forall(j, int, 0 <= j && j < old(len(builder.elements)) ==> seq(builder.elements[j]) == old(seq(builder.elements[j])))
+//@   ensures arr(builder.elements) == old(arr(builder.elements)) || fresh(builder.elements)
+//@   modifies builder.elements, elems(builder.elements), new([]string)
+
+//@ func (builder *txDataBuilder) ToString
+//@   requires builder != nil && encOK(builder)
+//@   loop 0 invariant seq(data) == wire(seq(builder.function), lunhex(list(builder.elements)), rangeindex + 1)
+//@   loop 0 assert lnth(list(builder.elements), rangeindex) == seq(element)
+//@   loop 0 assert hex(unhex(seq(element))) == seq(element)
+//@   loop 0 assert lnth(lunhex(list(builder.elements)), rangeindex) == unhex(seq(element))
+//@   ensures[C12] seq(r) == wire(seq(builder.function), lunhex(list(builder.elements)), len(builder.elements))
+
+// lemmaBuilderRoundTrip (C12): the string the builder produces for a function name without '@' and two
+// arbitrary arguments parses, with the real call-arguments parser, into the same function and arguments
+// (the general statement is the ToString contract composed with lemmaParseWire of package parsers).
+func lemmaBuilderRoundTrip(function string, a []byte, b []byte) (string, [][]byte, error) {
+	s := NewBuilder().Func(function).Bytes(a).Bytes(b).ToString()
+	return parsers.NewCallArgsParser().ParseData(s)
+}
+
+//@ func lemmaBuilderRoundTrip
+//@   results fn, args, err
+//@   requires noAt(seq(function)) && len(function) > 0
+//@   ensures[C12] err == nil && seq(fn) == seq(function) && len(args) == 2 && seq(args[0]) == seq(a) && seq(args[1]) == seq(b)
+//@   modifies new(txDataBuilder), new([]string), new([][]byte)
